@@ -364,6 +364,8 @@ def correspondence(ctx, model_ok=True):
             dist[t] = dist.get(t, 0) + 1
         if "err" not in g and len(g["min"]) >= 2:
             keys.add(json.dumps([c["sample"], c["edges"]]))
+    dist["completely_enumerated_tiny_scope_cases"] = len(exh) + len(pres)
+    dist["seeded_random_and_corpus_cases"] = n_random
     out = {"evaluations": len(cases), "distinct_nontrivial": len(keys), "distribution": dist,
            "rule": "corpus + seeded random samples (4-400 events; heavy ties, all-equal, wide, dyadic multiplicities; even, uneven, "
                    "tight (0-2 events per class), partial, dyadic, two-edge lists; 35% presented unsorted/duplicated; every query "
